@@ -149,9 +149,9 @@ impl Game {
             bail!("Missing player");
         };
 
-        let current_player = match next_player.chars().next().unwrap() {
-            'w' => Player::White,
-            'b' => Player::Black,
+        let current_player = match next_player {
+            "w" => Player::White,
+            "b" => Player::Black,
             _ => bail!("Invalid player"),
         };
 
@@ -167,11 +167,11 @@ impl Game {
 
         for right in castling_rights.chars() {
             match right {
-                'K' => state.set_white_king_castling_true(),
-                'Q' => state.set_white_queen_castling_true(),
-                'k' => state.set_black_king_castling_true(),
-                'q' => state.set_black_queen_castling_true(),
-                '-' => continue,
+                'K' if !state.white_king_castling() => state.set_white_king_castling_true(),
+                'Q' if !state.white_queen_castling() => state.set_white_queen_castling_true(),
+                'k' if !state.black_king_castling() => state.set_black_king_castling_true(),
+                'q' if !state.black_queen_castling() => state.set_black_queen_castling_true(),
+                '-' if castling_rights == "-" => continue,
                 _ => bail!("Invalid castling right"),
             }
         }
